@@ -87,6 +87,11 @@ def instances(tier):
     fam.append(("2 complex qubit kets (decimal), prior (3/10,7/10)", [np.array([0.1 + 0.7j, 0.3 - 0.2j]), np.array([0.3, 0.4j])], [0.3, 0.7]))
     fam.append(("3 complex qutrit column kets, prior (1/4,1/4,1/2)", [np.array([[1], [0.5j], [0]]), np.array([[0.5], [0.5], [0.5j]]), np.array([[0], [1], [-0.25 + 0.5j]])], [0.25, 0.25, 0.5]))
     fam.append(("2 complex density matrices, prior (3/4,1/4)", [np.array([[0.75, 0.25j], [-0.25j, 0.25]]), np.array([[0.5, 0.125 - 0.25j], [0.125 + 0.25j, 0.5]])], [0.75, 0.25]))
+    # mixed storage: the FIRST state is held in a real (float / integer) array, later ones are genuinely complex
+    fam.append(("3 qubit kets, first stored as a float array, the others complex, prior (1/4,1/2,1/4)",
+                [np.array([1.0, 0.5]), np.array([0.5, 0.5j]), np.array([0.25 + 0.5j, 1.0])], [0.25, 0.5, 0.25]))
+    fam.append(("2 qubit density matrices, first stored as an integer array, second complex, prior (1/4,3/4)",
+                [np.array([[1, 0], [0, 0]]), np.array([[0.5, -0.5j], [0.5j, 0.5]])], [0.25, 0.75]))
     fam.append(("4 complex qubit kets, uniform", [np.array([1, 0j]), np.array([0, 1j]), np.array([0.5, 0.5j]), np.array([0.5, -0.5])], None))
     if T:
         fam.append(("5 complex qubit kets", [np.array([1, 0j]), np.array([0, 1j]), np.array([0.5, 0.5j]), np.array([0.5, -0.5]), np.array([0.25, 0.75j])], [0.125, 0.125, 0.25, 0.25, 0.25]))
